@@ -374,6 +374,7 @@ ALPHABET = [
     Item('DATA', b'DATA', content=b'Subject: t\r\nX-Verdict: 450\r\n\r\nbody\r\n', label='DATA-msg/450'),
     Item('DATA', b'DATA', content=b'Subject: t\r\nX-Verdict: 421\r\n\r\nbody\r\n', label='DATA-msg/421'),
     Item('DATA', b'DATA', content=b'', label='DATA-empty'),
+    Item('DATA', b'DATA', content=b'Subject: t\r\n\r\n .\r\nMAIL FROM:<evil@x.org>\r\n\t.\r\nRSET\r\n', label='DATA-blank-dot'),
     Item('DATA', b'DATA now', label='DATA-arg'),
     Item('RSET', b'RSET'),
     Item('RSET', b'RSET x', label='RSET-arg'),
